@@ -239,6 +239,9 @@ func (m *Machine) builtin(fr *Frame, b *ssa.Builtin, c *ssa.CallCommon, args []V
 			return nil
 		}
 	}
+	if v, ok := m.unsafeBuiltin(b.Name(), args); ok {
+		return v
+	}
 	m.unsupported("builtin %s on %T", b.Name(), args[0])
 	return nil
 }
